@@ -273,6 +273,19 @@ let () =
     | [s] -> show_res hex_of_bytes (decrypt_pkg (fun x -> x) (bytes_of_hex s))
     | _ -> "bad-args")
 
+(* ---- C18 defined names ---- *)
+let () =
+  reg "c18.names" (fun a ->
+    let acc = Buffer.create 16 in
+    let l = List.fold_left (fun l t ->
+      let o = (match String.split_on_char ',' t with
+        | ["S"; n; s; r; v] -> DSet (bytes_of_hex n, bytes_of_hex s, bytes_of_hex r, bool_of_arg v)
+        | ["D"; n; s; _; _] -> DDel (bytes_of_hex n, bytes_of_hex s)
+        | _ -> failwith ("bad dnop " ^ t)) in
+      Buffer.add_string acc (str_bool (daccept l o)); dstep l o) [] a in
+    let items = List.sort compare (List.map (fun d -> hex_of_bytes d.dn_name ^ "/" ^ hex_of_bytes d.dn_scope ^ "=" ^ hex_of_bytes d.dn_ref) l) in
+    Buffer.contents acc ^ " | " ^ String.concat " " items)
+
 (* ---- C10 numeric rendering ---- *)
 let parse_ntok (t : string) : ntok =
   let n = String.length t in
